@@ -8,7 +8,20 @@ CHECKS = {
    text='Bounded model checking of the real parsers: for each parser entry point and each exact buffer length N in the stated set, CBMC proves that no input of that length makes the code read/write outside the buffer, fail an unwinding bound linear in N, or reach an abort. Solver-decided for all 2^(8N) inputs per job; nothing is sampled.',
    note='Bounded: lengths in the job table only. Trusted: CBMC 6.11 C semantics, clang-14 -O1 lowering + ir2c translation (validated per run by a native differential), allocator never fails, printf/logging are no-ops. Out-of-bounds pointer formation without dereference is not decided.'),
 }
-NA = {}
+NA_DESIGN = 'not encodable for solver-based checking of the real code (DESIGN.md section 6): '
+NA = {
+ 'C04': NA_DESIGN + 'convergence of a subscriber mirror is a statement about whole histories of the server\'s string-keyed DataNode graph (StorageReflectSession + DataNode + PathMatcher + libc regex + event loop); symbolic histories of that heap graph do not survive symbolic execution, concrete ones leave the solver nothing to decide',
+ 'C05': NA_DESIGN + 'the traversal is driven by pattern strings over string-keyed child tables and libc regex; the part that is muscle\'s own pattern logic is decided under C15',
+ 'C06': NA_DESIGN + 'a universally quantified negative over ~20 command handlers on the server object graph plus connection loss at every byte of a TCP stream through ReflectServer\'s socket loop',
+ 'C07': NA_DESIGN + 'server-level liveness over the same object graph and event loop',
+ 'C11': NA_DESIGN + 'real OS threads, socket pairs / condition variables and a message queue under a mutex: CBMC\'s thread support aborts on this code and blocking/wake-up would have to be modelled rather than executed',
+ 'C13': NA_DESIGN + 'ordered-index operations locate positions by node names in string-keyed Hashtables and notify through StorageReflectSession; symbolic names make the tables symbolic, concrete ones leave nothing to decide',
+ 'C18': NA_DESIGN + 'the lock state is three Hashtables keyed by thread id plus wait conditions; every schedule step changes their shape and liveness needs blocking semantics',
+ 'C19': NA_DESIGN + 'pending/deferred Hashtables of message queues per client, real Thread objects and condition variables',
+}
+PENDING = {  # claimed by DESIGN.md but whose check is not built yet at this commit: listed as not claimed until it exists
+ 'C01': '5.1', 'C03': '5.3', 'C08': '5.5', 'C09': '5.9', 'C10': '5.6', 'C12': '5.7', 'C14': '5.8', 'C15': '5.10', 'C16': '5.11', 'C17': '5.12', 'C20': '5.13',
+}
 def main():
     m = {'version': 1,
          'setup_cmd': 'make -C /verif/ir2c',
@@ -27,6 +40,10 @@ def main():
                             'replay_cmd_template': './check replay {path}', 'engine': c['engine'],
                             'level_claimed': {'category': 'model_checking', 'text': c['text'], 'design_ref': 'DESIGN.md section ' + c['design']},
                             'level_note': c['note'], 'technique': c.get('technique', TECH)})
-    for pid in sorted(NA): m['not_applicable'].append({'property_id': pid, 'reason': NA[pid]})
+    for pid in sorted(NA):
+        if pid not in CHECKS: m['not_applicable'].append({'property_id': pid, 'reason': NA[pid]})
+    for pid in sorted(PENDING):
+        if pid not in CHECKS: m['not_applicable'].append({'property_id': pid, 'reason': 'not claimed at this commit: the check designed in DESIGN.md section %s is not built yet' % PENDING[pid]})
+    m['not_applicable'].sort(key=lambda x: x['property_id'])
     json.dump(m, open(os.path.join(V, 'MANIFEST.json'), 'w'), indent=1)
 if __name__ == '__main__': main()
